@@ -946,6 +946,7 @@ def into_iter(I, v):
     if isinstance(v, VecObj):
         return ListIt(list(v.elems), by_ref=False)
     if isinstance(v, Agg) and v.adt.endswith("ops::Range"):
+        I.run.event("range_iter", v.fields[0], v.fields[1])
         return RangeIter(v.fields[0], v.fields[1])
     if isinstance(v, Agg) and v.adt == "array":
         return ListIt(list(v.fields), by_ref=False)
